@@ -25,22 +25,22 @@ func init() {
 }
 
 type c01Case struct {
-	Prompt    string   `json:"prompt"`
-	Trail     string   `json:"trail"`
-	Banner    string   `json:"banner"`
-	Cmds      []string `json:"cmds"`
+	Prompt    string     `json:"prompt"`
+	Trail     string     `json:"trail"`
+	Banner    string     `json:"banner"`
+	Cmds      []string   `json:"cmds"`
 	Outs      [][]string `json:"outs"` // per command: atoms (plain bytes or one escape sequence each)
-	EOL       string   `json:"eol"`
-	Echo      int      `json:"echo"`
-	WrapEvery int      `json:"wrap_every"`
-	Segs      []int    `json:"segs"`
-	DefSeg    int      `json:"default_seg"`
-	ReadSize  int      `json:"read_size"`
-	Depth     int      `json:"depth"`
-	NoStrip   bool     `json:"no_strip"`
-	Exact     bool     `json:"exact"`
-	DelayUS   int      `json:"read_delay_us"`
-	Variant   string   `json:"variant"` // commands | each
+	EOL       string     `json:"eol"`
+	Echo      int        `json:"echo"`
+	WrapEvery int        `json:"wrap_every"`
+	Segs      []int      `json:"segs"`
+	DefSeg    int        `json:"default_seg"`
+	ReadSize  int        `json:"read_size"`
+	Depth     int        `json:"depth"`
+	NoStrip   bool       `json:"no_strip"`
+	Exact     bool       `json:"exact"`
+	DelayUS   int        `json:"read_delay_us"`
+	Variant   string     `json:"variant"` // commands | each
 }
 
 var c01Words = []string{"Interface", "is", "up", "line protocol", "GigabitEthernet0/1", "10.0.0.1", "OK", "total 42", "MTU 1500 bytes",
@@ -109,6 +109,10 @@ func genC01(r *sim.Rng) *c01Case {
 		if r.Chance(1, 6) {
 			cmd += " " + strings.Repeat("a", 10+r.Intn(60)) + "!"
 		}
+		if r.Chance(1, 4) {
+			// commands ending in a run of one byte (the fuzzy echo matcher walks byte by byte)
+			cmd = r.Pick([]string{"show vlan all", "show firewall", "show interface 0/0/11", "show ip route vrf all", "sh ver | i uptime  ", "display vlan summary ||", "ping 10.0.0.1 count 100", "xx"})
+		}
 		c.Cmds = append(c.Cmds, cmd)
 		var atoms []string
 		nl := r.Intn(7)
@@ -136,7 +140,7 @@ func genC01(r *sim.Rng) *c01Case {
 	}
 	c.NoStrip = r.Chance(1, 3)
 	c.ReadSize = []int{8192, 8192, 64, 16, 65535}[r.Intn(5)]
-	switch r.Intn(5) {
+	switch r.Intn(6) {
 	case 0:
 		c.DefSeg = 1
 		if c.ReadSize < 16 {
@@ -144,6 +148,13 @@ func genC01(r *sim.Rng) *c01Case {
 		}
 	case 1:
 		c.DefSeg = 0
+	case 2:
+		// the last byte of everything the device has sent so far arrives in a read of its own
+		c.DefSeg = sim.SegAllButLast
+		k := r.Intn(6)
+		for i := 0; i < k; i++ {
+			c.Segs = append(c.Segs, []int{sim.SegAllButLast, 0, 1}[r.Intn(3)])
+		}
 	default:
 		k := r.Intn(60)
 		for i := 0; i < k; i++ {
@@ -325,6 +336,12 @@ func runC01Case(id string, c *c01Case) {
 			if results[i] != want {
 				cs.Oracle = fmt.Sprintf("command %d (%q): result %q != device output %q", i, c.Cmds[i], results[i], want)
 				cs.Sig = "C01:result"
+				if !c.Exact && 2*i < len(emissions) && staleCompletesEcho(c, i, start, emissions[2*i]) {
+					// known finding: bytes already in the buffer (login banner and prompt, or the blanks
+					// after the previous prompt) together with a proper prefix of the echo contain the
+					// command as a subsequence: the fuzzy matcher declares the echo complete early
+					cs.Sig = "C01:fuzzy-echo-completed-by-stale-bytes"
+				}
 				break
 			}
 		}
@@ -346,4 +363,31 @@ func runC01Case(id string, c *c01Case) {
 		}
 	}
 	emit(cs)
+}
+
+// staleCompletesEcho: is there a proper prefix p of command i's echo such that the bytes that can
+// be in the read buffer before it (for the first command everything the device sent at login, for
+// later ones a suffix of the blanks after the prompt) followed by p already "roughly contain" the
+// command (contract of util.BytesRoughlyContains: substring, or subsequence of a buffer at least as long)?
+func staleCompletesEcho(c *c01Case, i int, start, echo []byte) bool {
+	norm := func(b []byte) []byte { return bytes.ReplaceAll(b, []byte("\r"), nil) }
+	var stales [][]byte
+	if i == 0 {
+		stales = append(stales, norm(start))
+	} else {
+		for k := 0; k <= len(c.Trail); k++ {
+			stales = append(stales, []byte(c.Trail[k:]))
+		}
+	}
+	e := norm(echo)
+	cmd := []byte(c.Cmds[i])
+	for _, st := range stales {
+		for k := 0; k < len(e); k++ {
+			buf := append(append([]byte(nil), st...), e[:k]...)
+			if bytes.Contains(buf, cmd) || (len(buf) >= len(cmd) && pfSubseq(cmd, buf)) {
+				return true
+			}
+		}
+	}
+	return false
 }
